@@ -123,7 +123,7 @@ impl<'a> Sweep<'a> {
         let kind = format!("{}{}", if self.case.specs.directed { "directed" } else { "undirected" }, if self.case.specs.multi { "+multi" } else { "" });
         match rt::call(name, self.budget, f) {
             Err(p) => {
-                let site = p.0.rsplit(" @ ").next().unwrap_or("").replace("/repo/", "");
+                let site = rt::strip_repo(p.0.rsplit(" @ ").next().unwrap_or(""));
                 self.cx.fail(
                     "C20.panic",
                     &format!("{} panicked at {} ({:?})", name, site, must),
@@ -514,7 +514,9 @@ fn registry_scan() -> J {
             }
         }
     }
-    walk(std::path::Path::new("/repo/src"), &mut |p| {
+    let root = format!("{}/src", rt::repo_dir());
+    let prefix = format!("{}/", root);
+    walk(std::path::Path::new(&root), &mut |p| {
         let name = p.to_string_lossy().to_string();
         if name.contains("/main-") || name.ends_with("verif.rs") {
             return;
@@ -524,7 +526,7 @@ fn registry_scan() -> J {
                 let t = line.trim_start();
                 if let Some(rest) = t.strip_prefix("pub fn ") {
                     let f: String = rest.chars().take_while(|c| c.is_alphanumeric() || *c == '_').collect();
-                    found.push(format!("{}::{}", name.trim_start_matches("/repo/src/").trim_end_matches(".rs"), f));
+                    found.push(format!("{}::{}", name.trim_start_matches(prefix.as_str()).trim_end_matches(".rs"), f));
                 }
             }
         }
